@@ -575,6 +575,30 @@ func (g *c2gen) breakingEdit(class int, obj *c2obj) (steps [][]interface{}, name
 				}
 			}
 		}
+	case 16: // only the sign of the exponent differs: 1.5E-03 / 1.5E03 / 1.5E+03, 0e-0 / 0e0
+		var cands [][]string
+		for _, p := range all {
+			if v, _ := c2get(obj, p); v != nil {
+				if n, ok := v.(c2num); ok && strings.ContainsAny(string(n), "eE") {
+					cands = append(cands, p)
+				}
+			}
+		}
+		if p := pickP(cands); p != nil {
+			v, _ := c2get(obj, p)
+			n := string(v.(c2num))
+			i := strings.IndexAny(n, "eE")
+			mant, mark, exp := n[:i], n[i:i+1], n[i+1:]
+			switch {
+			case strings.HasPrefix(exp, "-"):
+				exp = []string{"", "+"}[g.r.Intn(2)] + exp[1:]
+			case strings.HasPrefix(exp, "+"):
+				exp = "-" + exp[1:]
+			default:
+				exp = "-" + exp
+			}
+			return [][]interface{}{stepSet(p, c2num(mant+mark+exp))}, "exponent-sign-flip"
+		}
 	case 13: // the same number spelled differently: not a re-serialisation, the signed bytes change
 		var cands [][]string
 		for _, p := range all {
@@ -636,7 +660,7 @@ func (g *c2gen) breakingEdit(class int, obj *c2obj) (steps [][]interface{}, name
 	return nil, ""
 }
 
-const c2breakingClasses = 16
+const c2breakingClasses = 17
 
 // edits that must not affect any signature
 func (g *c2gen) benignEdit(class int, signers []c2signer) ([][]interface{}, string) {
@@ -870,6 +894,18 @@ func genC02(c *Ctx) {
 							start.set(g.pick(c2escKeys), m)
 						} else {
 							start.set(m.keys[0], m.vals[0])
+						}
+					}
+					if kind.name == "breaking" && class == 16 || c.Rng.Intn(4) == 0 {
+						// an exponent literal, negative exponents (where the sign can get lost) favoured
+						n := g.pick(c2expNumbers)
+						if c.Rng.Intn(2) == 0 {
+							n = g.pick([]string{"1.5", "1", "-0", "0", "-1.5"}) + g.pick([]string{"e-", "E-"}) + g.pick([]string{"0", "00", "03", "05", "3", "10"})
+						}
+						if c.Rng.Intn(2) == 0 {
+							start.set("origin_server_ts", c2num(n))
+						} else {
+							start.set("content", c2obj1("n", c2num(n), "l", []interface{}{c2num(n)}))
 						}
 					}
 					if c.Rng.Intn(2) == 0 {
